@@ -72,6 +72,16 @@ class ChainFinder(object):
             else:
                 top_descendents.add(bottom_h)
 
+            # parents that were dropped from new_hashes while walking up are
+            # registered by this path only: trees waiting on them extend too
+            for idx, node_h in enumerate(path[1:-1], 1):
+                node_descendents = self.descendents_by_top.get(node_h)
+                if node_descendents:
+                    for descendent in node_descendents:
+                        self.trees_from_bottom[descendent].extend(path[idx + 1 :])
+                    del self.descendents_by_top[node_h]
+                    top_descendents.update(node_descendents)
+
     def all_chains_ending_at(self, h: Any) -> Generator[list[Any], None, None]:
         for bottom_h in self.descendents_by_top.get(h, []):
             yield self.trees_from_bottom[bottom_h]
